@@ -157,13 +157,22 @@ def run(ctx):
             j = [s for s in l.body if U(s) == "%s.join()" % U(l.target)]
             order = bool(j) and cfg.reachable(k, j[0], within=l) and not cfg.reachable(j[0], k, within=l)
             in_else = any(l in p.orelse for p in polls)
-            sig = "SIGKILL" in U(k) or k.func.attr in ("kill",) if isinstance(k.func, ast.Attribute) else False
+            uncatchable = ("SIGKILL" in U(k) and pm.call_name(k) == "os.kill") or (
+                isinstance(k.func, ast.Attribute) and k.func.attr == "kill" and pm.call_name(k) != "os.kill")
+            if alive and order and in_else and not uncatchable:
+                ctx.node_bad("R3", f, k, "live workers are stopped with `%s`, i.e. SIGTERM: the forked workers inherit the host "
+                             "process's signal dispositions, so a handler that does not exit (or SIG_IGN) lets them survive, the "
+                             "join() that follows blocks until the exponential search finishes, and the analysis no longer "
+                             "returns within the timeout (only SIGKILL / Process.kill() cannot be caught)" % U(k)[:60])
+                okk = None
+                continue
             if alive and order and in_else:
                 okk = True
                 ctx.node_ok("R3", f, k, "time-out path: live workers are killed (%s), then every worker is joined" % U(k)[:50])
-    ctx.check(okk, "R3", "time-out path kills live workers before joining", f.where(w),
-              "on the time-out path workers that are still alive are not killed before join(): the analysis would block "
-              "until they finish (no time-out) or leave them running", f.qname, "kill before join")
+    if okk is not None:
+        ctx.check(okk, "R3", "time-out path kills live workers before joining", f.where(w),
+                  "on the time-out path workers that are still alive are not killed before join(): the analysis would block "
+                  "until they finish (no time-out) or leave them running", f.qname, "kill before join")
     cp = [n for n, b in pm.find("M_a = list(M_a)", w)]
     ok = len(cp) == 1 and cp[0] in w.body and all(cfg.reachable(l, cp[0]) and not cfg.reachable(cp[0], l) for l in jloops)
     shared = pm.find("M_a = M_m.list()", w)
